@@ -513,6 +513,56 @@ pub fn run(ctx: &mut Ctx) {
         ctx.evaluations += n;
         ctx.bounds.insert("identifier_alphabet".into(), json!(format!("{} respellings of 9 kinds of name holding every letter, digit and the underscore", n)));
     }
+    // names of the standard library (function blocks, functions, elementary-type-like words) used as a type name, and
+    // declared by the unit itself and used: the letter case of the declaration and of every use, varied independently,
+    // never moves the verdict
+    {
+        let names = ["TON", "TOF", "TP", "R_TRIG", "F_TRIG", "RS", "SR", "CTU", "CTD", "CTUD", "CTU_DINT", "RTC", "ABS", "SQRT", "MAX", "LEN", "SEL", "MOVE", "TIME", "Counter"];
+        let cases_of = |n: &str| -> Vec<String> {
+            let cap: String = n.chars().enumerate().map(|(i, c)| if i == 0 { c.to_ascii_uppercase() } else { c.to_ascii_lowercase() }).collect();
+            let alt: String = n.chars().enumerate().map(|(i, c)| if i % 2 == 0 { c.to_ascii_lowercase() } else { c.to_ascii_uppercase() }).collect();
+            vec![n.to_ascii_uppercase(), n.to_ascii_lowercase(), cap, alt]
+        };
+        let mut n = 0u64;
+        for name in names {
+            let sp = cases_of(name);
+            // used without being declared
+            let text_of = |u: &str| format!("FUNCTION_BLOCK Host\nVAR\n  d : {} ;\n  e : {} ;\nEND_VAR\nEND_FUNCTION_BLOCK\n", u, u);
+            let base_text = text_of(&sp[0]);
+            let (bv, _) = front::check_texts(&[&base_text]);
+            for u in &sp[1..] {
+                let text = text_of(u);
+                n += 1;
+                ctx.distinct(&text);
+                let (v, _) = front::check_texts(&[&text]);
+                if v.short() != bv.short() {
+                    ctx.fail("standard-name/used-as-a-type#verdict", &format!("`{}` as a type gives {}, `{}` gives {}", sp[0], bv.short(), u, v.short()), json!({"mode":"world-text","text": text, "base": base_text}));
+                }
+            }
+            // declared by the unit and used
+            let text_of2 = |dcl: &str, u1: &str, u2: &str| format!("FUNCTION_BLOCK {}\nVAR_INPUT\n  go : BOOL ;\nEND_VAR\nVAR_OUTPUT\n  done : BOOL ;\nEND_VAR\n  done := go ;\nEND_FUNCTION_BLOCK\nFUNCTION_BLOCK Host\nVAR\n  d : {} ;\n  e : {} ;\n  b : BOOL ;\nEND_VAR\n  d ( go := TRUE , done => b ) ;\nEND_FUNCTION_BLOCK\n", dcl, u1, u2);
+            let base_text = text_of2(&sp[0], &sp[0], &sp[0]);
+            let (bv, _) = front::check_texts(&[&base_text]);
+            for dcl in &sp {
+                for u1 in &sp {
+                    for u2 in &sp {
+                        let text = text_of2(dcl, u1, u2);
+                        if text == base_text {
+                            continue;
+                        }
+                        n += 1;
+                        ctx.distinct(&text);
+                        let (v, _) = front::check_texts(&[&text]);
+                        if v.short() != bv.short() {
+                            ctx.fail("standard-name/declared-and-used#verdict", &format!("declared `{}`, used `{}` and `{}`: verdict {} instead of {} (all in upper case)", dcl, u1, u2, v.short(), bv.short()), json!({"mode":"world-text","text": text, "base": base_text}));
+                        }
+                    }
+                }
+            }
+        }
+        ctx.evaluations += n;
+        ctx.bounds.insert("standard_names".into(), json!(format!("{} names x 4 letter cases of the declaration and of two uses", names.len())));
+    }
     // where commentary and string text begin and end decides what is code: exhaustive differential sweep
     crate::lexseg::run_into(ctx, if deep { 7 } else { 6 });
     ctx.states = cases.len() as u64 - skipped;
